@@ -471,7 +471,14 @@ fn handle_stress(c: &Ctx, rounds: usize) {
                 ws.push(sc.spawn(move || {
                     for i in 0..FILES_PER_WRITER {
                         let p = format!("/h/w{}-{}", t, i);
-                        match i % 3 {
+                        match i % 4 {
+                            // write handle over an existing file whose content has the length of the new one
+                            3 => {
+                                let _ = v.write_all(&p, format!("old-{:08}", i));
+                                if let Ok(mut h) = v.write(&p) {
+                                    let _ = h.write_all(format!("NEW-{:08}", i).as_bytes());
+                                }
+                            },
                             // write handle, dropped without flush
                             0 => {
                                 if let Ok(mut h) = v.write(&p) {
@@ -508,14 +515,15 @@ fn handle_stress(c: &Ctx, rounds: usize) {
         'outer: for t in 0..WRITERS {
             for i in 0..FILES_PER_WRITER {
                 let p = format!("/h/w{}-{}", t, i);
-                let want = match i % 3 {
+                let want = match i % 4 {
+                    3 => format!("NEW-{:08}", i),
                     0 => format!("W{}-{}", t, i),
                     1 => format!("base+A{}-{}", t, i),
                     _ => format!("F{}-{}", t, i),
                 };
                 let got = v.read_all(&p).ok();
                 if got.as_deref() != Some(want.as_str()) {
-                    let how = ["write-handle-dropped", "append-handle-dropped", "write-handle-flushed"][i % 3];
+                    let how = ["write-handle-dropped", "append-handle-dropped", "write-handle-flushed", "write-handle-over-same-length-content"][i % 4];
                     r = Err(Failure::new(format!("stress|handle-write-back-lost-under-load|{}", how), format!("{} holds {:?} after all threads finished, want {:?} (the handle's owner was the only writer of that file)", p, got, want)));
                     break 'outer;
                 }
